@@ -125,7 +125,7 @@ pub fn run_impl(case: &Case) -> Result<Reported, String> {
     }
 }
 
-fn result_line(r: &Result<Reported, String>) -> String {
+pub fn result_line(r: &Result<Reported, String>) -> String {
     match r {
         Ok(rep) => {
             let mut v = vec![1i64];
